@@ -1858,6 +1858,123 @@ def terminates(stmts):
 
 
 # ----------------------------------------------------------------------------------------------
+# caller-supplied containers that are stored without a copy
+# ----------------------------------------------------------------------------------------------
+MUTABLE_TYPE_NAMES = {"list", "set", "dict", "deque", "bytearray", "ndarray", "np.ndarray", "numpy.ndarray",
+                      "np.array", "List", "Set", "Dict", "MutableSequence", "MutableMapping", "MutableSet"}
+COPYING_CALLS = {"set", "list", "dict", "tuple", "frozenset", "sorted", "deque", "copy", "deepcopy", "array",
+                 "asarray_copy", "copy.copy", "copy.deepcopy", "np.array", "numpy.array", "np.copy", "float", "int",
+                 "str", "bool"}
+
+
+def _type_names(e):
+    """class names mentioned in the second argument of isinstance / an annotation"""
+    out = set()
+    for n in ast.walk(e):
+        d = dotted(n) if isinstance(n, (ast.Name, ast.Attribute)) else None
+        if d:
+            out.add(d)
+            out.add(d.split(".")[-1])
+    return out
+
+
+def collect_stored_args(an, res):
+    """Sites of kind KStoresArg: an API function keeps a reference to a mutable container the caller passed in
+    (`self._x = param`, `self._x[k] = param`, `setattr(self, name, param)`) instead of a copy; two objects (of two
+    problems) given the same container then share it.  Evidence that the parameter is a container: an
+    isinstance check / annotation naming list, set, dict, ndarray, ..., or the declared types of a generated setter."""
+    db = an.db
+    out = []
+    for f in db.funcs:
+        if f.mod.ext or f.kind != "func" or not isinstance(f.node, (ast.FunctionDef, ast.AsyncFunctionDef)):
+            continue
+        meth = an.enclosing_method(f)
+        if meth is None:
+            continue
+        sn = an.self_name(meth)
+        if sn is None:
+            continue
+        params = [x for x in f.params if x != sn]
+        if not params:
+            continue
+        # evidence per parameter
+        ev = {}
+        a = f.node.args
+        for arg in a.posonlyargs + a.args + a.kwonlyargs:
+            if arg.annotation is not None and (_type_names(arg.annotation) & MUTABLE_TYPE_NAMES):
+                ev.setdefault(arg.arg, set()).update(_type_names(arg.annotation) & MUTABLE_TYPE_NAMES)
+        cond_rebound = {}      # param -> type names for which it is replaced by a fresh object first
+        for n in an.own[f]:
+            if isinstance(n, ast.Call) and dotted(n.func) == "isinstance" and len(n.args) == 2 \
+                    and isinstance(n.args[0], ast.Name) and n.args[0].id in params:
+                t = _type_names(n.args[1]) & MUTABLE_TYPE_NAMES
+                if t:
+                    ev.setdefault(n.args[0].id, set()).update(t)
+        # unconditional rebinding at the top level of the function body: the name no longer holds the caller's object
+        killed_at = {}
+        for i, st in enumerate(f.node.body):
+            if isinstance(st, ast.Assign) and len(st.targets) == 1 and isinstance(st.targets[0], ast.Name) \
+                    and st.targets[0].id in params and isinstance(st.value, ast.Call):
+                killed_at.setdefault(st.targets[0].id, st.lineno)
+            if isinstance(st, ast.If):
+                # if isinstance(p, T): p = fresh(p)
+                tst = st.test
+                if isinstance(tst, ast.Call) and dotted(tst.func) == "isinstance" and len(tst.args) == 2 \
+                        and isinstance(tst.args[0], ast.Name) and tst.args[0].id in params and not st.orelse:
+                    for b in st.body:
+                        if isinstance(b, ast.Assign) and len(b.targets) == 1 and isinstance(b.targets[0], ast.Name) \
+                                and b.targets[0].id == tst.args[0].id and isinstance(b.value, ast.Call):
+                            cond_rebound.setdefault(tst.args[0].id, set()).update(_type_names(tst.args[1]))
+        for n in an.own[f]:
+            stored = None
+            how = None
+            if isinstance(n, ast.Assign) and isinstance(n.value, ast.Name) and n.value.id in params:
+                for tg in n.targets:
+                    base = tg
+                    while isinstance(base, ast.Subscript):
+                        base = base.value
+                    if isinstance(base, ast.Attribute) and isinstance(base.value, ast.Name) and base.value.id == sn:
+                        stored, how = n.value.id, "self.%s%s = %s" % (base.attr, "[...]" if base is not tg else "", n.value.id)
+            elif isinstance(n, ast.Call) and dotted(n.func) == "setattr" and len(n.args) == 3 \
+                    and isinstance(n.args[0], ast.Name) and n.args[0].id == sn \
+                    and isinstance(n.args[2], ast.Name) and n.args[2].id in params:
+                stored, how = n.args[2].id, "setattr(self, ..., %s)" % n.args[2].id
+            if stored is None:
+                continue
+            if stored in killed_at and killed_at[stored] < n.lineno:
+                continue
+            types = set(ev.get(stored, set()))
+            types -= {t for t in cond_rebound.get(stored, set())}
+            out.append((f, stored, how, n.lineno, sorted(types)))
+    # generated setters: setattr(self, hidden_param, value) with the declared types of each application
+    gen_sites = []
+    for g in res.props:
+        decl = set(g["types"]) & MUTABLE_TYPE_NAMES
+        if decl:
+            gen_sites.append((g["name"], sorted(decl)))
+    sites = []
+    for f, pname, how, ln, types in out:
+        if "make_prop" in f.qual:
+            continue          # the factories: judged per application below
+        if f.mod.rel.startswith("input_parser" + os.sep) or f.mod.rel.startswith("input_parser/"):
+            continue          # the parse-tree layer (syntax nodes, Input): not objects of a problem's API
+        if not types:
+            continue          # no evidence that the parameter is a mutable container (scalars, objects of the model)
+        s = Site("KStoresArg", f"{f.qual}({pname})", Shape("container", True), f.mod, attr=pname, owner=f, lineno=ln)
+        s.extra.update(how=how, types=types)
+        s.acc.append((f, "E", ln))
+        sites.append(s)
+    for name, types in gen_sites:
+        cn = name.split(".")[0]
+        c = db.classes.get(cn)
+        s = Site("KStoresArg", f"set:{name}(value)", Shape("container", True), c.mod if c else None, attr="value",
+                 lineno=0)
+        s.extra.update(how="setattr(self, hidden, value)", types=types, app=name)
+        sites.append(s)
+    return sites
+
+
+# ----------------------------------------------------------------------------------------------
 # driver
 # ----------------------------------------------------------------------------------------------
 INTERNAL_FILES = {"input_parser/parser_base.py", "input_parser/cell_parser.py", "input_parser/data_parser.py",
@@ -1984,6 +2101,14 @@ def analyse(repo=None):
                 (isinstance(init, ast.Call) and dotted(init.func) == "tuple" and not init.args)
             res.props.append({"name": name, "owner": name.split(".")[0], "latching": latching, "types": tys,
                               "self_typed": bool(empty), "site": cs_})
+    # caller-supplied containers stored without a copy
+    for s_ in collect_stored_args(an, res):
+        an.sites.append(s_)
+        row = Result()
+        row.site, row.status = s_, "SDirty"
+        row.live_w = [s_.owner.qual] if s_.owner is not None else ["set:" + s_.extra.get("app", "?")]
+        row.init_w, row.readers, row.entries = [], list(row.live_w), []
+        rows.append(row)
     # copy hooks
     res.copy_hooks = sorted(f.qual for f in db.funcs if not f.mod.ext and f.name in
                             ("__deepcopy__", "__copy__", "__getstate__", "__setstate__", "__reduce__",
@@ -2099,6 +2224,8 @@ def emit(res):
                 if sm != "none" or mw:
                     rows.append((e.qual, FIRST[sm], mw))
                     entry_kind_of[e.qual] = entry_kind(e)
+        elif s.kind == "KStoresArg":
+            rows = []
         elif s.kind in ("KDefaultArg", "KCache", "KSingleton") and r.live_w:
             for q in r.live_w:
                 rows.append((q, "FDirty", True))
